@@ -280,6 +280,17 @@ def check_prefilter(spec, ctx):
         ctx.label("band_on_chunk")
     else:
         parent = Parent(id="chr1", sequence_type="chromosome") if spec.get("parent") == "id_only" else None
+    if spec.get("shared_guid"):
+        # one database record annotated at two loci: two genes (and two feature collections) carry the same caller-issued
+        # identifier; position queries are about positions, whatever the identifiers
+        w_ = 2 ** 17 + 40
+        o["genes"][0]["guid"] = "00000000-0000-4000-8000-00000000abcd"
+        o["genes"].append({"transcripts": [{"exons": [[b + w_, b + w_ + 3]], "strand": "+", "transcript_id": "tDup", "transcript_type": "ncRNA"}],
+                           "gene_id": "gDup", "gene_type": "ncRNA", "qualifiers": {}, "guid": "00000000-0000-4000-8000-00000000abcd"})
+        o["feature_collections"][0]["guid"] = "00000000-0000-4000-8000-00000000dcba"
+        o["feature_collections"].append({"features": [{"blocks": [[b + w_ + 5, b + w_ + 7]], "strand": "+", "feature_id": "fDup"}], "feature_collection_id": "fcDup",
+                                         "qualifiers": {}, "guid": "00000000-0000-4000-8000-00000000dcba"})
+        ctx.label("two_members_share_a_caller_issued_guid")
     coll = mkcollection(o, parent)
     spans = child_spans(o)
     # the bin stored on every child and grandchild at construction is the reference bin of its span
@@ -337,6 +348,10 @@ def enum_prefilter(tier, shard, nshards):
                 i += 1
                 if i % nshards == shard:
                     yield {"b": b, "level": level, "parent": parent}
+                if parent == "none" and len(seen) % 3 == 0:
+                    i += 1
+                    if i % nshards == shard:
+                        yield {"b": b, "level": level, "parent": parent, "shared_guid": True}
 
 
 def pred_end_on_boundary(spec, clause, detail):
@@ -359,7 +374,7 @@ PROP = Prop(
             must_hit=["contained", "overlapping"],
             rule="pairs (query range, interval) where the interval is contained in / cut on the left / cut on the right / contains the query; boundary-biased; bins(I, one=True) must be in bins(Q, one=False)"),
         Leg("prefilter_bands", check_prefilter, enumerate=enum_prefilter, exhaustive=True, shards_quick=16, shards_thorough=16,
-            must_hit=["prefilter_active_nonempty", "query_ends_one_past_boundary", "query_starts_one_before_boundary", "band_on_chunk", "relaxed_query_between_children_of_a_wide_member"],
+            must_hit=["prefilter_active_nonempty", "query_ends_one_past_boundary", "query_starts_one_before_boundary", "band_on_chunk", "relaxed_query_between_children_of_a_wide_member", "two_members_share_a_caller_issued_guid"],
             rule="integrated: for boundaries of every level (incl. 2^29), an AnnotationCollection (sequence-less, or on a sequence chunk [b-40,b+40) with that genomic offset) holding features of EVERY span inside b-3..b+3, "
                  "1-2 bp genes (one with isoforms on either side of b), SNVs at b-1,b,b+1 and two far anchors; ALL query ranges with both ends in b-4..b+4 "
                  "plus ends 2^17 away and the collection bounds, completely_within on/off; answer = brute-force membership; stored .bin of every child = reference bin"),
